@@ -21,6 +21,7 @@ Require Import Verif.Model.Base Verif.Model.Dec Verif.Model.Level Verif.Model.Mo
 Require Import Verif.Model.Quote Verif.Model.Attrs Verif.Model.Encode Verif.Model.Ansi.
 Require Import Verif.Proofs.EscP Verif.Proofs.SortP Verif.Proofs.AnsiP.
 Require Import Verif.Corr.C01 Verif.Corr.Enc.
+Require Verif.Gen.Colors Verif.Proofs.GenColorP.
 
 (* strconv.IsPrint on ASCII; the theorems hold for every such function *)
 Definition isprint_std (isprint : Z -> bool) : Prop :=
@@ -160,6 +161,31 @@ Print Assumptions C06_registry_ok.
 
 (* a concrete record: Error level, logger "svc", caller, a two-line message ending in LF, a string
    with an escape sequence inside, an error, a group *)
+(* TIE TO THE SOURCE.  The six colour helpers of slog/colorize_tool.go, translated from the source on
+   every run (Gen/Colors.v), are the model's functions for all arguments: echoColor / echoBgColor /
+   echoColorAndBg write ESC [ <decimal> m per colour and NOTHING for clrNone, echoResetColor writes
+   ESC [ 0 m (out = what the io.Writer holds, every Write appends); rightPad never cuts and pads to
+   the minimal width; splitFirstAndRestLines (index of the first line feed, TrimRight of the final
+   line ends) computes exactly the first line / rest / eol triple the layout theorems speak about. *)
+Theorem C06_gen_echo_color : forall out c, Colors.echo_color out c = Some (out ++ echo_color c).
+Proof. exact GenColorP.gen_echo_color. Qed.
+Print Assumptions C06_gen_echo_color.
+Theorem C06_gen_echo_bg_color : forall out c, Colors.echo_bg_color out c = Some (out ++ echo_color c).
+Proof. exact GenColorP.gen_echo_bg_color. Qed.
+Print Assumptions C06_gen_echo_bg_color.
+Theorem C06_gen_echo_color_bg : forall out c b, Colors.echo_color_bg out c b = Some (out ++ echo_color_bg c b).
+Proof. exact GenColorP.gen_echo_color_bg. Qed.
+Print Assumptions C06_gen_echo_color_bg.
+Theorem C06_gen_echo_reset : forall out, Colors.echo_reset out = Some (out ++ sgr_reset).
+Proof. exact GenColorP.gen_echo_reset. Qed.
+Print Assumptions C06_gen_echo_reset.
+Theorem C06_gen_right_pad : forall str minw, Colors.right_pad str [x20] minw = Some (right_pad str minw).
+Proof. exact GenColorP.gen_right_pad. Qed.
+Print Assumptions C06_gen_right_pad.
+Theorem C06_gen_split_first_rest : forall str, Colors.split_first_rest str = Some (split_first_rest str).
+Proof. exact GenColorP.gen_split_first_rest. Qed.
+Print Assumptions C06_gen_split_first_rest.
+
 Definition ex_isprint (r : Z) : bool := (32 <=? r) && (r <? 127).
 Definition ex_cfg : ecfg :=
   {| e_mode := ShColor; e_name := [x73;x76;x63]; e_lvl := 2; e_caller := Some ([x61;x2e;x67;x6f], 7, [x70;x2f;x6d;x2e;x66]);
